@@ -224,11 +224,17 @@ class Forest:
         for n in self.handles:
             vals = []
             for f in dataclasses.fields(n):
+                if f.name in ("id", "original_id", "content_id"):
+                    continue  # recorded separately, by value
                 v = getattr(n, f.name)
+                isnode = lambda x: hasattr(x, "detached") and hasattr(x, "parent_index")  # noqa: E731
                 if isinstance(v, (list, tuple)):
-                    vals.append((f.name, type(v).__name__, tuple(id(x) for x in v)))
+                    vals.append((f.name, type(v).__name__, tuple(("node", id(x)) if isnode(x) else ("val", repr(x)) for x in v)))
+                elif isnode(v):
+                    vals.append((f.name, "node", id(v)))
                 else:
-                    vals.append((f.name, "v", id(v)))
+                    # scalar values are compared by value and type (strings may be re-created with equal content)
+                    vals.append((f.name, type(v).__name__, repr(v) if not hasattr(v, "fqn") else ("origin", id(v))))
             p = n.parent
             snap[id(n)] = (
                 n.detached,
@@ -254,7 +260,7 @@ class Forest:
                 continue
             ch = [names[i] for i in range(len(names)) if a[i] != b[i]]
             if ch:
-                out.append({"node": desc(by_id[k]), "changed": ch, "before": {names[i]: (b[i] if i != 4 else "...") for i in range(len(names)) if a[i] != b[i]}, "after": {names[i]: (a[i] if i != 4 else "...") for i in range(len(names)) if a[i] != b[i]}})
+                out.append({"node": desc(by_id[k]), "obj": k, "changed": ch, "before": {names[i]: (b[i] if i != 4 else "...") for i in range(len(names)) if a[i] != b[i]}, "after": {names[i]: (a[i] if i != 4 else "...") for i in range(len(names)) if a[i] != b[i]}})
         if after["registry"] != before["registry"]:
             added = sorted(set(after["registry"]) - set(before["registry"]))
             removed = sorted(set(before["registry"]) - set(after["registry"]))
